@@ -184,6 +184,19 @@ func exec(op string) (res string) {
 			return "bounded"
 		}
 		return "NOT-BOUNDED"
+	case "range":
+		// what the two documented range queries select, decided by the real Min/MaxTimeUUID and Cassandra's order
+		ta, tb := time.Unix(i64(1), i64(2)), time.Unix(i64(3), i64(4))
+		u := uuidOf(hx(5))
+		io := func(b bool) string {
+			if b {
+				return "in"
+			}
+			return "out"
+		}
+		incl := cassLe(gocql.MinTimeUUID(ta), u) && cassLe(u, gocql.MaxTimeUUID(tb))
+		excl := !cassLe(u, gocql.MaxTimeUUID(ta)) && !cassLe(gocql.MinTimeUUID(tb), u)
+		return "incl=" + io(incl) + " excl=" + io(excl)
 	case "randchk":
 		b := hx(1)
 		old := rand.Reader
@@ -432,6 +445,85 @@ func genTime(r *vh.Rng) (int64, int64, string) {
 	}
 }
 
+// tickOf: the 100 ns tick of a representable instant, computed independently of getTimestamp
+func tickOf(sec, ns int64) int64 { return (sec-timeBase)*10000000 + ns/100 }
+
+// mkV1 packs a version-1 RFC 4122 UUID from a 60-bit timestamp and 8 low bytes (variant bits forced to 10),
+// independently of TimeUUIDWith (RFC 4122 4.1.2: time_low, time_mid, time_hi_and_version)
+func mkV1(ts int64, low [8]byte) []byte {
+	u := make([]byte, 16)
+	t := uint64(ts)
+	u[0], u[1], u[2], u[3] = byte(t>>24), byte(t>>16), byte(t>>8), byte(t)
+	u[4], u[5] = byte(t>>40), byte(t>>32)
+	u[6], u[7] = 0x10|byte(t>>56)&0x0f, byte(t>>48)
+	copy(u[8:], low[:])
+	u[8] = 0x80 | u[8]&0x3f
+	return u
+}
+
+// genRange: two representable instants a (given) and b = a moved by a small / large / zero / negative amount, and a
+// v1 RFC 4122 UUID whose timestamp sits on, next to, between or far from the two ticks, with extreme low bytes
+func genRange(r *vh.Rng, sec, ns int64) (string, string) {
+	maxTick := int64(1)<<60 - 1
+	if tickOf(sec, ns) > maxTick { // outside the representable range: not the theorem's subject
+		sec--
+	}
+	deltas := []int64{0, 1, 99, 100, 101, 199, 200, 1000, 1000000000, -1, -100, -200, 12345678901}
+	d := deltas[r.Intn(len(deltas))]
+	if r.Intn(4) == 0 {
+		d = int64(r.U64() % (1 << uint(1+r.Intn(50))))
+	}
+	tot := ns + d
+	bsec, bns := sec+tot/1000000000, tot%1000000000
+	if bns < 0 {
+		bsec, bns = bsec-1, bns+1000000000
+	}
+	if tickOf(bsec, bns) < 0 || tickOf(bsec, bns) > maxTick || bsec < timeBase {
+		bsec, bns = sec, ns
+	}
+	ta, tb := tickOf(sec, ns), tickOf(bsec, bns)
+	var ts int64
+	cls := "range/"
+	switch r.Intn(8) {
+	case 0:
+		ts, cls = ta, cls+"on-a"
+	case 1:
+		ts, cls = tb, cls+"on-b"
+	case 2:
+		ts, cls = ta-1, cls+"before-a"
+	case 3:
+		ts, cls = ta+1, cls+"after-a"
+	case 4:
+		ts, cls = tb-1, cls+"before-b"
+	case 5:
+		ts, cls = tb+1, cls+"after-b"
+	case 6:
+		ts, cls = ta+(tb-ta)/2, cls+"middle"
+	default:
+		ts, cls = int64(r.U64()&uint64(maxTick)), cls+"random"
+	}
+	if ts < 0 {
+		ts = 0
+	}
+	if ts > maxTick {
+		ts = maxTick
+	}
+	var low [8]byte
+	copy(low[:], r.Bytes(8))
+	switch r.Intn(4) {
+	case 0: // the bounds' own low bytes and their neighbours under the signed-byte order
+		for k := range low {
+			low[k] = r.PickByte([]byte{0x80, 0x7f, 0x00, 0xff, 0x81, 0x7e})
+		}
+		low[0] = r.PickByte([]byte{0x80, 0xbf, 0x81, 0xbe, 0xa0})
+	case 1:
+		low = [8]byte{0x80, 0x80, 0x80, 0x80, 0x80, 0x80, 0x80, 0x80}
+	case 2:
+		low = [8]byte{0xbf, 0x7f, 0x7f, 0x7f, 0x7f, 0x7f, 0x7f, 0x7f}
+	}
+	return fmt.Sprintf("range %d %d %d %d %s", sec, ns, bsec, bns, vh.Hex(mkV1(ts, low))), cls
+}
+
 func genT(r *vh.Rng) (int64, string) {
 	switch r.Intn(6) {
 	case 0:
@@ -508,6 +600,10 @@ func main() {
 		}
 		op = fmt.Sprintf("bound %d %d %s", sec, ns, vh.Hex(u[:]))
 		out.Case(op, exec(op), "bound", true)
+		{
+			op, cls := genRange(r, sec, ns)
+			out.Case(op, exec(op), cls, true)
+		}
 		op = "randchk " + vh.Hex(genUUIDBytes(r))
 		out.Case(op, exec(op), "randchk", true)
 		s, scls := genString(r)
